@@ -608,6 +608,8 @@ class World:
                 return V.is_TupleV(v) if kind == 'tuple' else V.is_ListV(v)
             if kind.split('[', 1)[0] in ('dict', 'enumdict'):
                 return V.is_DictV(v)
+            if kind.split('[', 1)[0] == 'set':
+                return V.is_SetV(v)
             if kind == 'callable':
                 return z3.And(V.is_ObjV(v), self.uf('callable!', [IntS, BoolS])(V.oid(v)))
         if fty in self.classes:
@@ -1143,8 +1145,9 @@ def solve_obligation(o, timeout_ms=10000, want_model=True):
     s = z3.Solver()
     s.set('timeout', timeout_ms)
     s.add(*o.pc)
-    s.add(*instantiation_hints(o.pc, o.goal))
-    s.add(z3.Not(o.goal))
+    goal = skolemize_goal(o.goal)
+    s.add(*instantiation_hints(o.pc, goal))
+    s.add(z3.Not(goal))
     r = s.check()
     o.time = time.time() - t0
     o.solver = 'z3-' + z3.get_version_string()
@@ -1305,6 +1308,30 @@ def _innermost_accessor(forms):
         if best[0] is not None:
             return best[0]
     return None
+
+
+_SK = [0]
+
+
+def skolemize_goal(g, depth=0):
+    """universal quantifiers in positive position of the goal are replaced by fresh constants (validity preserving);
+    the constants then serve as instantiation terms for the quantified facts of the path condition"""
+    if depth > 6:
+        return g
+    if z3.is_quantifier(g) and g.is_forall():
+        consts = []
+        for j in range(g.num_vars()):
+            _SK[0] += 1
+            consts.append(z3.Const(f'sk!{_SK[0]}!{g.var_name(j)}', g.var_sort(j)))
+        body = z3.substitute_vars(g.body(), *reversed(consts))
+        return skolemize_goal(body, depth + 1)
+    if z3.is_and(g):
+        return z3.And(*[skolemize_goal(c, depth + 1) for c in g.children()])
+    if z3.is_or(g):
+        return z3.Or(*[skolemize_goal(c, depth + 1) for c in g.children()])
+    if z3.is_implies(g):
+        return z3.Implies(g.arg(0), skolemize_goal(g.arg(1), depth + 1))
+    return g
 
 
 def has_free_vars(e, depth=0, seen=None):
